@@ -99,7 +99,7 @@ class LibraryFlatten(Family):
                         out.append(('single', d, n, refocus, pat))
                 out.append(('simplified', d, n, True, 0))
         # one long experiment: the flattened circuit is a single deep relation graph (hundreds of relation steps)
-        out.append(('single', 2, 30 if tier == 'quick' else 60, True, 0))
+        out.append(('single', 2, 30 if tier == 'quick' else 50, True, 0))     # (60 cycles exceed the interpreter's recursion limit, DESIGN 9)
         lists = [(0,), (1,), (2,), (0, 1), (2, 1), (3, 0, 1), (4, 3)] if tier == 'quick' else [(0,), (1,), (2,), (3,), (0, 1), (1, 0), (2, 1), (3, 0, 1), (0, 2, 4), (4, 1)]
         for d in (2, 3) if tier != 'quick' else (2,):
             for l in lists:
